@@ -18,7 +18,7 @@ if TYPE_CHECKING:
 
 from .exceptions import ConfigurationError, assert_config, UnexpectedInput
 from .utils import Serialize, SerializeMemoizer, FS, logger, TextOrSlice, LarkInput
-from .load_grammar import load_grammar, FromPackageLoader, Grammar, verify_used_files, PackageResource, sha256_digest
+from .load_grammar import load_grammar, FromPackageLoader, Grammar, verify_used_files, PackageResource, sha256_digest, relative_import_base_path
 
 from .tree import Tree
 from .common import LexerConf, ParserConf, _ParserArgType, _LexerArgType
@@ -346,7 +346,9 @@ class Lark(Serialize, Generic[_Return_T]):
                 unhashable = ('transformer', 'postlex', 'lexer_callbacks', 'edit_terminals', '_plugins')
                 options_str = ''.join(k+str(v) for k, v in options.items() if k not in unhashable)
                 from . import __version__
-                s = grammar + options_str + __version__ + str(sys.version_info[:2])
+                # The same grammar text imports other files when it is loaded from another place,
+                # so the path that relative imports are resolved against is part of the key
+                s = grammar + options_str + __version__ + str(sys.version_info[:2]) + str(relative_import_base_path(self.source_path))
                 cache_sha256 = sha256_digest(s)
 
                 if isinstance(self.options.cache, str):
